@@ -347,9 +347,14 @@ class Interp(object):
 
     def rw(self, t):
         """Simplify under the equalities fixed by case splits."""
+        t = z3.simplify(t)
         if self.known:
-            t = z3.substitute(t, *self.known)
-        return z3.simplify(t)
+            for _ in range(3):
+                t2 = z3.simplify(z3.substitute(t, *self.known))
+                if t2.eq(t):
+                    break
+                t = t2
+        return t
 
     def learn(self, t, k):
         """Record that term t equals the integer k on this path."""
@@ -362,7 +367,10 @@ class Interp(object):
         t = self.rw(t)
         if z3.is_int_value(t):
             return t.as_long()
-        if self.query(self.st.pc, z3.BoolVal(True), 1500, values=[t]) != z3.sat:
+        r0 = self.query(self.st.pc, z3.BoolVal(True), 1500, values=[t])
+        if r0 == z3.unsat:
+            raise PathEnd()         # feasibility is over-approximated: this path does not exist
+        if r0 != z3.sat:
             return None
         vals = self._last_values
         if not vals or not isinstance(vals[0], int) or isinstance(vals[0], bool):
